@@ -1,25 +1,7 @@
 (* Run/JudgeC04.v — case type and judge for the C04 correspondence run (threshold RDP, rdp.rdp). *)
 From Coq Require Import ZArith List Arith Bool PrimFloat.
-From Knee Require Import Num NumFloat NpList Model.Mapping Model.Rdp.
+From Knee Require Import Num NumFloat NpList Model.Mapping Model.Rdp Run.RdpTables.
 Import ListNotations.
-
-(* oracle tables keyed by the absolute half-open range (l, r) of the sub-array points[l:r] *)
-Definition dtab := list (nat * nat * list float).
-Definition ctab := list (nat * nat * float).
-Fixpoint lookup {A} (tab : list (nat * nat * A)) (l r : nat) : option A :=
-  match tab with
-  | [] => None
-  | (l', r', v) :: tab' => if (l' =? l) && (r' =? r) then Some v else lookup tab' l r
-  end.
-Definition has {A} (tab : list (nat * nat * A)) (s : nat * nat) : bool :=
-  match lookup tab (fst s) (snd s) with Some _ => true | None => false end.
-Definition dist_of (dt : dtab) (l r : nat) : list float :=
-  match lookup dt l r with Some d => d | None => [] end.
-Definition cost_from (ct : ctab) (l r : nat) : float :=
-  match lookup ct l r with Some c => c | None => nan end.
-(* the shape hypothesis of the theorems, evaluated on every table entry *)
-Definition shape_ok (dt : dtab) : bool :=
-  forallb (fun e => length (snd e) =? snd (fst e) - fst (fst e)) dt.
 
 Inductive case :=
   (* rdp.rdp(points, t, distance, cost) on n points returned out = (reduced, removed); None = raised / did not
